@@ -23,7 +23,7 @@ void h_asn1_time_from_str(void)
 	CANARY("returned");
 }
 
-//@job name=asn1_time_to_str props=C14 enforce=asn1_time_to_str loops=1 timeout=2400 solver=kissat
+//@job name=asn1_time_to_str props=C14 enforce=asn1_time_to_str loops=1 timeout=5400 solver=kissat tier=thorough
 void h_asn1_time_to_str(void)
 {
 	INPUT(tm_in, T);
